@@ -412,6 +412,34 @@ example : (validate
       (fun r => r.2.1.tf) = some [true, true] := by
   decide
 
+/-- the third clause of `C05_fields_props` is not vacuous: a record whose function-pointer field
+    keeps its anonymous callback (not skipped, not a signal, bindable signature) -/
+example : (validate
+    { name := "Foo".toList
+      tops := [{ name := "R".toList, skip := false, intro := true,
+                 body := .compound true
+                   [{ name := "f".toList, intro := true, ty := none, anon := some 0 }] []
+                   [{ name := "f".toList, skip := false, intro := true,
+                      sig := { params := [{ ty := .fund "gint".toList }], ret := { ty := .fund "none".toList },
+                               isCallback := true } }] }] }).map
+      (fun r => (r.2.1.sf, r.2.1.ff)) = some ([[true]], [[true]]) := by
+  decide
+
+/-- `C05_exotic` is not vacuous for nested callables either: the method of `chainNS.Rec` is
+    demoted, a method over a list of strings survives -/
+example : (validate
+    { name := "Foo".toList
+      tops := [{ name := "R".toList, skip := false, intro := true,
+                 body := .compound true [] []
+                   [{ name := "m".toList, skip := false, intro := true,
+                      sig := { params := [{ ty := .list (.fund "utf8".toList) }],
+                               ret := { ty := .map (.fund "utf8".toList) (.ext true false .other) } } },
+                    { name := "v".toList, skip := false, intro := true,
+                      sig := { params := [{ ty := .varargs, skip := true }],
+                               ret := { ty := .fund "none".toList } } }] }] }).map
+      (fun r => r.2.1.sf) = some [[true, false]] := by
+  decide
+
 example : writeParam [some "cb".toList, some "data".toList, none, some "n".toList]
     { closureName := some "data".toList, destroyName := none, lengthName := some "n".toList }
     = .ok (some 1, none, some 3) := by rfl
